@@ -518,7 +518,9 @@ def main():
     ap.add_argument('--n', type=int, default=40)
     ap.add_argument('--vals', type=int, default=3)
     ap.add_argument('--out', required=True)
+    ap.add_argument('--fp', action='store_true', help='fingerprint corpus: no BitVec, no value cases')
     a = ap.parse_args()
+    texpr.NO_BITVEC = a.fp
     r = random.Random(a.seed * 7919 + 13)
     items = []
     for k in range(a.n):
@@ -581,11 +583,11 @@ def main():
         L.append(f'        (MetaType::new::<{t.rust()}>(), "{t.proto()}"),')
     L.append('    ]\n}')
     L.append('pub fn derive_cases(table: &[(MetaType, &\'static str)], out: &mut dyn FnMut(String)) {')
-    for k in range(len(insts)):
+    for k in range(0 if a.fp else len(insts)):
         L.append(f'    dcase_{k}(table, out);')
     L.append('}')
     nvals = 0
-    for k, (it, args) in enumerate(insts):
+    for k, (it, args) in enumerate([] if a.fp else insts):
         me = Adt(it, args)
         L.append(f'fn dcase_{k}(table: &[(MetaType, &\'static str)], out: &mut dyn FnMut(String)) {{')
         L.append(f'    type X = {me.rust()};')
